@@ -20,7 +20,7 @@ try:
         f=l[3:].strip()
         rep['/repo/'+f]=os.path.join(wt,f)
     ov=os.path.join(wt,'.seed_overlay.json'); json.dump({'Replace':rep},open(ov,'w'))
-    root='/verif/.work/seedroot'; shutil.rmtree(root,ignore_errors=True); os.makedirs(root)
+    root='/verif/.work/seedroot-%d'%os.getpid(); shutil.rmtree(root,ignore_errors=True); os.makedirs(root)
     shutil.copy('/verif/known_findings.txt',root)
     env=dict(os.environ,VERIF_EXTRA_BUILDFLAGS='-overlay '+ov,VERIF_MUT_ROOT=root)
     for id in ids:
@@ -29,5 +29,6 @@ try:
         print(f'== {id} {tier}: exit {r.returncode}; {len([v for v in viol if v.startswith("VIOLATION")])} violation lines')
         for v in viol[:8]: print('   ',v[:300])
         if r.returncode not in (0,1): print(r.stderr[-1500:])
+    print('artefacts (if any) under',root,'- remove when done')
 finally:
     subprocess.call(['git','-C','/repo','worktree','remove','--force',wt])
